@@ -197,7 +197,7 @@ Lemma br_store_marker_cases : forall prefix body p p', store_marker prefix body 
   p' = p \/ ensure p (ann_path (prefix ++ "/" ++ marker_name)%string) (JStr "yes") = Ok p'.
 Proof.
   intros prefix body p p'. unfold store_marker, ann_path.
-  destruct (negb (String.eqb prefix "") && negb (str_prefix_of "kopf." prefix)); [|intros [= <-]; auto].
+  destruct (negb (String.eqb prefix "") && negb (known_without_marker prefix)); [|intros [= <-]; auto].
   match goal with |- context [resolve_strict body ?pth] =>
     destruct (resolve_strict body pth), (resolve_strict p pth) end; intros H; try discriminate H;
     try (injection H as <-; now left); now right.
